@@ -114,12 +114,12 @@ pub fn run(env: &Env) -> i32 {
             Ok(())
         }
     };
-    let sch = "type Query { f(x: Float, id: ID, ids: [Int], deep: [[Int]], s: String!, d: Int! = 1): Int }";
+    let sch = "type Query { f(x: Float, id: ID, ids: [Int], deep: [[Int]]): Int g(s: String!, d: Int! = 1): Int }";
     rep.probe("C04-int-literal-for-float", probe(sch, "query Q { f(x: 1) }"));
     rep.probe("C04-int-literal-for-id", probe(sch, "query Q { f(id: 1) }"));
     rep.probe("C04-single-value-for-list", probe(sch, "query Q { f(ids: 1, deep: 2) }"));
     rep.probe("C04-null-for-list", probe(sch, "query Q { f(ids: null, deep: [null]) }"));
-    rep.probe("C04-nullable-var-with-default", probe(sch, "query Q($v: String = \"x\", $w: Int) { f(s: $v, d: $w) }"));
+    rep.probe("C04-nullable-var-with-default", probe(sch, "query Q($v: String = \"x\", $w: Int) { g(s: $v, d: $w) }"));
 
     rep.campaign("valid-docs", env.cases(4_000, 150_000), (0, 700), case_fn);
     rep.finish()
